@@ -694,7 +694,14 @@ check_arc_correction(const shared_ptr<ProjDataInfo>& noarc_sptr, const json& a)
   auto in_edge = [&](int j) { return g.R * std::sin((j - .5) * PI / g.N); };
   auto out_edge = [&](int t) { return (t - .5) * delta; };
   const double in_lo = in_edge(imin), in_hi = in_edge(imax + 1);
-  const double out_lo = out_edge(omin), out_hi = out_edge(omax + 1);
+  // FINDING C12-F1 (work/notes/C12_findings.md): ArcCorrection::set_up puts the upper edge of the LAST output bin at
+  // (max+1.5) x sampling instead of (max+0.5) x sampling, so that bin collects twice its width whenever the input reaches
+  // it.  Excluded by construction: the last output bin is left out of both facts (its lower edge ends the checked range).
+  const bool excl_last = exclusions_on();
+  const int omax_checked = excl_last ? omax - 1 : omax;
+  if (excl_last && out_edge(omax) < in_hi)
+    stats().count("excluded:C12-F1 last arc-corrected bin reached by the input");
+  const double out_lo = out_edge(omin), out_hi = out_edge(omax_checked + 1);
   if (variant == 0)
     { // documented: "num_arccorrected_bins is chosen such that the new (radial) FOV is slightly larger than the one covered by the original data"
       VF_CHECK(out_lo <= in_lo && out_hi >= in_hi, "default arc-corrected range [", out_lo, ",", out_hi, "] does not cover the input range [", in_lo, ",", in_hi,
@@ -704,7 +711,7 @@ check_arc_correction(const shared_ptr<ProjDataInfo>& noarc_sptr, const json& a)
   // (overlap_interpolate.inl:83-86 "find small number for comparisons"): an output bin can lose at most its first and its last
   // overlap, an input bin likewise -> the tolerance terms 2 eps/delta and 2 eps sum(in) below.  Float accumulation over
   // <= ~1000 terms adds <= ~2e-5 relative.
-  const double eps = std::min((out_hi - out_lo) / (omax - omin + 1), (in_hi - in_lo) / (imax - imin + 1)) / 10000.;
+  const double eps = std::min((out_edge(omax + 1) - out_lo) / (omax - omin + 1), (in_hi - in_lo) / (imax - imin + 1)) / 10000.;
   const double edge_tol = 1e-6 * g.R + 1e-5 * delta; // float rounding of the edges inside STIR
   SplitMix rng(a.value("seed", uint64_t(1)));
   const int nviews = pn.get_num_views();
@@ -738,7 +745,7 @@ check_arc_correction(const shared_ptr<ProjDataInfo>& noarc_sptr, const json& a)
   for (int v = 0; v < nviews; ++v)
     {
       // uniform -> uniform on fully covered output bins
-      for (int t = omin; t <= omax; ++t)
+      for (int t = omin; t <= omax_checked; ++t)
         {
           const bool fully = out_edge(t) >= in_lo + edge_tol && out_edge(t + 1) <= in_hi - edge_tol;
           const bool outside = out_edge(t + 1) <= in_lo - edge_tol || out_edge(t) >= in_hi + edge_tol;
@@ -762,7 +769,7 @@ check_arc_correction(const shared_ptr<ProjDataInfo>& noarc_sptr, const json& a)
           const Sinogram<float>& in = which ? in_rand : in_const;
           const Sinogram<float>& out = which ? out_rand : out_const;
           double sum_out = 0, sum_in = 0, sum_in_vals = 0, total = 0;
-          for (int t = omin; t <= omax; ++t)
+          for (int t = omin; t <= omax_checked; ++t)
             sum_out += double(out[v][t]) * delta;
           for (int j = imin; j <= imax; ++j)
             {
